@@ -729,7 +729,13 @@ class Association(threading.Thread):
                 self._serve_request(msg, cast(int, context_id))
 
             # Check for release request from the peer
-            if self.is_established and self.acse.is_release_requested():
+            #   (not once a local abort is under way: abort() wakes the reactor
+            #   before it sends the A-ABORT)
+            if (
+                self.is_established
+                and not self._sent_abort
+                and self.acse.is_release_requested()
+            ):
                 # Send A-RELEASE response
                 self.acse.send_release(is_response=True)
                 LOGGER.info("Association Released")
